@@ -8,6 +8,7 @@ import Norad.Props.C20
 #print axioms C20.oncurves_in_order
 #print axioms C20.closed_returns_to_start
 #print axioms C20.no_point_lost
+#print axioms C20.oracle_accepts_outline
 #print axioms C20.transform_formula
 #print axioms C20.transform_eq_kurbo
 #print axioms C20.affine_roundtrip
